@@ -101,8 +101,11 @@ CHECKS = {
              "new names; an overwritten column moves to the end), row_verbs_keep_columns, alias_columns, union_columns, dictOf_keys_nodup. The oracle is the "
              "statement itself on the real code: columns(), iteration, len, in, dir and Cache.from_ast vs the accumulated cache after every verb, and "
              "columns() vs the exported frame's names on Polars and SQLite, on random programs and on scenario programs (summarize overwriting a grouping "
-             "column, hidden-name collision through a forced subquery). Partial: that the backends' select lists equal the metadata is established on the "
-             "real code (oracle + correspondence), not yet as a Lean refinement theorem over the compile models.",
+             "column, hidden-name collision through a forced subquery). Pdt/Props/C11Frag.lean: wfrag_meta / columns_eq_spec / columns_eq_sql_labels - for every "
+             "pipeline of the row-level fragment (source, select, rename, filter, mutate; distinct names and identities as the front end guarantees) the metadata "
+             "lists exactly the (name, identity) pairs of the reference table in order, hence columns() = the labels of the SELECT the SQL-compiler model builds "
+             "(composition with C01.refinement_rowlevel). Partial: outside that fragment the equality of select lists and metadata is established on the real "
+             "code (oracle + correspondence) only.",
         design_ref="DESIGN.md section 5, C11",
         note=NOTE_COMMON + "Defects D5 and D17 found here were repaired in /repo (fix: commits).",
     ),
